@@ -8,3 +8,36 @@
   (ite (= k 32) 4294967296 0))))))))))))))))))))))))))))))))))
 ; centred residue: the representative of a mod m in (-m/2, m/2]
 (define-fun modpm ((a Int) (m Int)) Int (let ((r (mod a m))) (ite (> (* 2 r) m) (- r m) r)))
+; ---- byte strings and hash primitives (T4: hashes are deterministic functions of their input bytes; an XOF
+; is an infinite stream per input, a read of n bytes returns its first n bytes) ----
+; A byte string is a canonical array (zero outside [0,len)) plus its length.
+(declare-fun sub ((Array Int Int) Int Int) (Array Int Int))
+(assert (forall ((A (Array Int Int)) (o Int) (n Int) (i Int))
+  (! (= (select (sub A o n) i) (ite (and (<= 0 i) (< i n)) (select A (+ o i)) 0)) :pattern ((select (sub A o n) i)))))
+(declare-fun cat ((Array Int Int) Int (Array Int Int) Int) (Array Int Int))
+(assert (forall ((A (Array Int Int)) (n Int) (B (Array Int Int)) (m Int) (i Int))
+  (! (= (select (cat A n B m) i) (ite (< i n) (select A i) (ite (< i (+ n m)) (select B (- i n)) 0))) :pattern ((select (cat A n B m) i)))))
+; shake(kind, msg, len, q): byte q of the SHAKE-<kind> output stream on input msg[0:len]
+(declare-fun shake (Int (Array Int Int) Int Int) Int)
+(assert (forall ((k Int) (A (Array Int Int)) (n Int) (q Int)) (! (and (<= 0 (shake k A n q)) (<= (shake k A n q) 255)) :pattern ((shake k A n q)))))
+; sha256(msg, len, q): byte q (0..31) of SHA-256(msg[0:len])
+(declare-fun sha256 ((Array Int Int) Int Int) Int)
+(assert (forall ((A (Array Int Int)) (n Int) (q Int)) (! (and (<= 0 (sha256 A n q)) (<= (sha256 A n q) 255)) :pattern ((sha256 A n q)))))
+; abstract strings (elements of []string, map keys): only equality is used
+(declare-sort Str 0)
+; byte j (j = 0 least significant) of a 32-bit value; 0 beyond byte 3
+(define-fun byte32 ((x Int) (j Int)) Int (ite (= j 0) (mod x 256) (ite (= j 1) (mod (div x 256) 256) (ite (= j 2) (mod (div x 65536) 256) (ite (= j 3) (mod (div x 16777216) 256) 0)))))
+(define-fun shr8 ((x Int) (j Int)) Int (ite (<= j 0) x (ite (= j 1) (div x 256) (ite (= j 2) (div x 65536) (ite (= j 3) (div x 16777216) 0)))))
+; WOTS+ private/public key size (bytes) for n = 32: len * n, len = len1 + len2 (RFC 8391 section 3.1.1)
+(define-fun wotsKeySize ((w Int)) Int (ite (= w 4) 4256 (ite (= w 16) 2144 (ite (= w 256) 1088 0))))
+; A hash depends only on the first len bytes of its input (T4), stated in skolemised form so that the
+; solvers can use it: either the two inputs differ at the witness index inside [0,len), or the outputs agree.
+(declare-fun bdiff ((Array Int Int) (Array Int Int) Int) Int)
+(assert (forall ((k Int) (X (Array Int Int)) (Y (Array Int Int)) (n Int) (q Int))
+  (! (or (and (<= 0 (bdiff X Y n)) (< (bdiff X Y n) n) (not (= (select X (bdiff X Y n)) (select Y (bdiff X Y n)))))
+         (= (shake k X n q) (shake k Y n q)))
+     :pattern ((shake k X n q) (shake k Y n q)))))
+(assert (forall ((X (Array Int Int)) (Y (Array Int Int)) (n Int) (q Int))
+  (! (or (and (<= 0 (bdiff X Y n)) (< (bdiff X Y n) n) (not (= (select X (bdiff X Y n)) (select Y (bdiff X Y n)))))
+         (= (sha256 X n q) (sha256 Y n q)))
+     :pattern ((sha256 X n q) (sha256 Y n q)))))
